@@ -27,7 +27,7 @@ TEMPLATES = [
     "def {n}(x): return {a}(x - 1) + 1 if x > 0 else {k}",
     "lambda x: x * {k} + {r}",
     "def {n}(x): return u + x",
-    "def {n}(x):\n    try:\n        return {a}(x)\n    except Exception:\n        return -{k}",
+    "def {n}(x):\n    try:\n        return {a}(x)\n    except (NameError, AttributeError, TypeError):\n        return -{k}",
 ]
 
 
